@@ -132,6 +132,11 @@ func (p *Proc) finished() {
 	if p.waiter != nil {
 		p.w.makeRunnable(p.waiter)
 	}
+	// the write ends of the child's pipes are closed when it exits
+	for _, pp := range p.cmd.pipes {
+		pp.closed = true
+		pp.wake()
+	}
 }
 
 // Process mirrors the part of *os.Process a Cancel function can use.
@@ -199,8 +204,9 @@ type Cmd struct {
 	Cancel    func() error
 	Process   *Process
 
-	ctx  context.Context
-	proc *Proc
+	ctx   context.Context
+	proc  *Proc
+	pipes []*pipe
 }
 
 func Command(name string, arg ...string) *Cmd {
@@ -409,5 +415,85 @@ func (c *Cmd) CombinedOutput() ([]byte, error) {
 }
 
 func (c *Cmd) String() string { return strings.Join(c.Args, " ") }
+
+// ---- StdoutPipe / StderrPipe ----
+
+type pipe struct {
+	buf     []byte
+	closed  bool
+	waiters []*task
+}
+
+type pipeReader struct{ p *pipe }
+type pipeWriter struct{ p *pipe }
+
+func (pw pipeWriter) Write(b []byte) (int, error) {
+	pw.p.buf = append(pw.p.buf, b...)
+	pw.p.wake()
+	return len(b), nil
+}
+
+func (p *pipe) wake() {
+	if W != nil {
+		for _, t := range p.waiters {
+			W.makeRunnable(t)
+		}
+	}
+	p.waiters = nil
+}
+
+func (pr pipeReader) Read(b []byte) (int, error) {
+	w := W
+	if w != nil {
+		w.yield("pipe.read", "")
+	}
+	for len(pr.p.buf) == 0 && !pr.p.closed {
+		if w == nil {
+			return 0, io.EOF
+		}
+		pr.p.waiters = append(pr.p.waiters, w.cur)
+		w.block("read from child pipe")
+	}
+	if len(pr.p.buf) == 0 {
+		return 0, io.EOF
+	}
+	n := copy(b, pr.p.buf)
+	pr.p.buf = pr.p.buf[n:]
+	return n, nil
+}
+
+func (pr pipeReader) Close() error {
+	pr.p.closed = true
+	pr.p.wake()
+	return nil
+}
+
+// StdoutPipe mirrors (*exec.Cmd).StdoutPipe.
+func (c *Cmd) StdoutPipe() (io.ReadCloser, error) {
+	if c.Stdout != nil {
+		return nil, errors.New("exec: Stdout already set")
+	}
+	if c.proc != nil {
+		return nil, errors.New("exec: StdoutPipe after process started")
+	}
+	p := &pipe{}
+	c.Stdout = pipeWriter{p}
+	c.pipes = append(c.pipes, p)
+	return pipeReader{p}, nil
+}
+
+// StderrPipe mirrors (*exec.Cmd).StderrPipe.
+func (c *Cmd) StderrPipe() (io.ReadCloser, error) {
+	if c.Stderr != nil {
+		return nil, errors.New("exec: Stderr already set")
+	}
+	if c.proc != nil {
+		return nil, errors.New("exec: StderrPipe after process started")
+	}
+	p := &pipe{}
+	c.Stderr = pipeWriter{p}
+	c.pipes = append(c.pipes, p)
+	return pipeReader{p}, nil
+}
 
 var _ = runtime.Goexit
